@@ -944,6 +944,12 @@ fn line_starts(source: &str) -> Vec<usize> {
     starts
 }
 
+/// Byte offset of the 1-based (line, column) position in `source`, columns counted in characters.
+#[cfg(feature = "miette")]
+pub(crate) fn line_col_to_byte_offset(source: &str, row_1: usize, col_1: usize) -> Option<usize> {
+    line_col_to_byte_offset_with_starts(source, &line_starts(source), row_1, col_1)
+}
+
 /// Convert a 1-based (row, col) to a byte offset within `source`, given precomputed line starts.
 ///
 /// Parameters:
